@@ -20,6 +20,7 @@ BUILT = {
  "C06": ("fault_enumeration", "Every single frame loss and every silence point of either peer, for 110 transfer shapes on both data link layers, enumerated completely per shape (k over all bus frames), with recovery follow-up; payload/latency draws by Hypothesis.", "5/C06"),
  "C08": ("exploration", "Every traced source line of either job thread as a pre-emption point (3 durations) for 8 transfer shapes, differential against the un-pre-empted run; double pre-emptions sampled. Line-granular, not bytecode-granular.", "5/C08"),
  "C09": ("exploration", "Trace monitor over the time-stamped bus log of generated sessions (stack vs reference peer in both roles, stack vs stack): clearance per CTS, order, holds, BAM and connection-mode pacing, grant bounds.", "5/C09"),
+ "C10": ("exploration", "Model-based testing of transfer histories with injected fates and inbound sessions on arbitrary session numbers against a reference capacity model, then a full-concurrency probe that must be accepted and delivered and one more call that must be refused without a frame.", "5/C10"),
  "C12": ("exploration", "Generated operation histories executed on the real ECU job thread under a virtual-time kernel and compared with a reference timer model: call windows per registration, no drift, no call after removal, no missing call; includes exact deadline/clock coincidences.", "5/C12"),
  "C15": ("exploration", "PGN space (2^18) enumerated in both tiers, identifier space (2^29) enumerated in the thorough tier (stride sample + boundaries in quick), NAME space covered by exhaustive per-field sweeps, single bits, boundary tuples and Hypothesis draws, all against an independent reference codec.", "5/C15"),
 }
